@@ -116,6 +116,8 @@ MALFORMED = {
     "character constant with more than four characters": R.seq(R.lit("'"), R.rep(5, None, R.ncls("'\\\n")), R.lit("'")),
     "character constant with an invalid escape": R.seq(R.lit("'\\"), R.ncls("a-zA-Z._~^!=&\\'\"?0-9\n-"), R.star(R.ncls("'\n")), R.lit("'")),
     "string literal with an invalid escape": R.seq(R.lit('"'), R.star(S_ORD), R.lit("\\"), R.ncls("a-zA-Z._~^!=&\\'\"?0-9\n-"), R.star(S_ORD), R.lit('"')),
+    "string literal with several invalid escapes": R.seq(R.lit('"'), R.star(S_ORD), R.plus(R.seq(R.lit("\\"), R.ncls("a-zA-Z._~^!=&\\'\"?0-9\n-"), R.star(S_ORD))), R.lit('"')),
+    "character constant with an invalid escape after the first character": R.seq(R.lit("'"), R.plus(R.ncls("'\\\n")), R.lit("\\"), R.ncls("a-zA-Z._~^!=&\\'\"?0-9\n-"), R.star(R.ncls("'\n\\")), R.lit("'")),
     "C comment opener": R.seq(R.lit("/*"), R.star(R.setof(R.cs_neg(())))),
     "C++ comment opener": R.seq(R.lit("//"), R.star(R.setof(R.cs_neg(())))),
 }
